@@ -1,9 +1,20 @@
 //! Struct and implementation of the Node entry in the Kademlia routing table
+#[cfg(not(mainline_verif))]
 use std::{
     fmt::{self, Debug, Formatter},
     net::SocketAddrV4,
     sync::Arc,
     time::{Duration, Instant},
+};
+#[cfg(mainline_verif)]
+use {
+    crate::verif::Instant,
+    std::{
+        fmt::{self, Debug, Formatter},
+        net::SocketAddrV4,
+        sync::Arc,
+        time::Duration,
+    },
 };
 
 use crate::common::Id;
@@ -44,6 +55,19 @@ impl Debug for Node {
             .field("address", &self.0.address)
             .field("last_seen", &self.0.last_seen.elapsed().as_secs())
             .finish()
+    }
+}
+
+#[cfg(mainline_verif)]
+impl Node {
+    pub(crate) fn verif_snapshot(&self) -> crate::verif::NodeSnap {
+        crate::verif::NodeSnap {
+            id: *self.0.id.as_bytes(),
+            address: self.0.address,
+            age_ns: self.0.last_seen.elapsed().as_nanos() as u64,
+            secure: self.is_secure(),
+            token: self.0.token.as_ref().map(|t| t.to_vec()),
+        }
     }
 }
 
